@@ -63,6 +63,34 @@ def identifier (isPre : Bool) (s : Str) : Option (Str × Str) :=
   if p.isEmpty then some ([], s)
   else if (splitOnDot p).all (segOk isPre) then some (p, rest) else none
 
+/-- the optional `-pre` part: `none` = error, `some (pre, rest)` -/
+def parsePre (s : Str) : Option (Str × Str) :=
+  match s with
+  | '-' :: r =>
+    match identifier true r with
+    | none => none
+    | some (pre, r) => if pre.isEmpty then none else some (pre, r)
+  | _ => some ([], s)
+
+/-- the optional `+build` part -/
+def parseBuild (s : Str) : Option (Str × Str) :=
+  match s with
+  | '+' :: r =>
+    match identifier false r with
+    | none => none
+    | some (b, r) => if b.isEmpty then none else some (b, r)
+  | _ => some ([], s)
+
+/-- what follows `major.minor.patch` -/
+def parseTail (major minor patch : Nat) (s : Str) : Option Version :=
+  match parsePre s with
+  | none => none
+  | some (pre, s) =>
+    match parseBuild s with
+    | none => none
+    | some (build, s) =>
+      if s.isEmpty then some ⟨major, minor, patch, pre, build⟩ else none
+
 /-- `impl FromStr for Version` -/
 def parseVersion (s : Str) : Option Version :=
   match numericIdent s with
@@ -79,50 +107,30 @@ def parseVersion (s : Str) : Option Version :=
   | some s =>
   match numericIdent s with
   | none => none
-  | some (patch, s) =>
-  match s with
-  | [] => some ⟨major, minor, patch, [], []⟩
-  | _ =>
-    let preR : Option (Str × Str) :=
-      match s with
-      | '-' :: r =>
-        match identifier true r with
-        | none => none
-        | some (pre, r) => if pre.isEmpty then none else some (pre, r)
-      | _ => some ([], s)
-    match preR with
-    | none => none
-    | some (pre, s) =>
-      let buildR : Option (Str × Str) :=
-        match s with
-        | '+' :: r =>
-          match identifier false r with
-          | none => none
-          | some (b, r) => if b.isEmpty then none else some (b, r)
-        | _ => some ([], s)
-      match buildR with
-      | none => none
-      | some (build, s) =>
-        if s.isEmpty then some ⟨major, minor, patch, pre, build⟩ else none
+  | some (patch, s) => parseTail major minor patch s
 
 /-! ### Ordering of build metadata (`impl Ord for BuildMetadata`) via an order-embedding
-into `List Nat` with the lexicographic order. -/
+into `List (List Nat)` with the lexicographic order (of lexicographically ordered segments). -/
 
 def trimZeros (s : Str) : Str := s.dropWhile (· == '0')
 
-/-- key of one dot-separated segment; self-delimiting -/
+/-- key of one dot-separated segment.  Numeric segments (all digits) sort before the others;
+two numeric segments compare by (length without leading zeros, digits, total length); two
+non-numeric ones bytewise. -/
 def segKey (seg : Str) : List Nat :=
   if seg.all isDigit then
     let t := trimZeros seg
     [0, t.length] ++ t.map Char.toNat ++ [seg.length]
   else
-    [1] ++ seg.map (fun c => c.toNat + 1) ++ [0]
+    1 :: seg.map Char.toNat
 
-def buildKey (b : Str) : List Nat :=
-  if b.isEmpty then [] else (splitOnDot b).flatMap (fun seg => 2 :: segKey seg)
+/-- no build metadata sorts first (the empty list); otherwise segment by segment, a proper
+prefix first -/
+def buildKey (b : Str) : List (List Nat) :=
+  if b.isEmpty then [] else (splitOnDot b).map segKey
 
 /-- the key the release-version order is the lexicographic order of -/
-def Version.key (v : Version) : List Nat := [v.major, v.minor, v.patch] ++ buildKey v.build
+def Version.key (v : Version) : List (List Nat) := [[v.major], [v.minor], [v.patch]] ++ buildKey v.build
 
 /-- `a < b` for release versions (pre-release empty on both sides) -/
 def Version.lt (a b : Version) : Bool := decide (a.key < b.key)
